@@ -517,8 +517,14 @@ func (c *FnCtx) evalIndex(st *State, x *ast.IndexExpr) *Term {
 func (c *FnCtx) mapLookup(st *State, m *Term, mt *types.Map, k *Term) (*Term, *Term) {
 	dom := c.mapDom(st, m, mt)
 	val := c.mapVal(st, m, mt)
-	present := mkAnd(mkNot(mkEq(m, intLit(0))), mkSelect(dom, k))
-	v := mkIte(present, mkSelect(val, k), c.zero(mt.Elem()))
+	// the nil map (reference 0) has an empty domain in every heap version (see heapArr/heapHavoc)
+	present := mkSelect(dom, k)
+	ks, vs := c.mapSorts(mt)
+	fn := "mapget_" + mangleSort(ks) + "_" + mangleSort(vs)
+	c.smt.fun(fn, []string{dom.Sort, val.Sort, ks}, vs)
+	zero := c.zero(mt.Elem())
+	c.smt.axiom(fn+"_def", fmt.Sprintf("(forall ((d %s) (v %s) (k %s)) (! (= (%s d v k) (ite (select d k) (select v k) %s)) :pattern ((%s d v k))))", dom.Sort, val.Sort, ks, fn, zero, fn), false, fn)
+	v := mk(fn, vs, dom, val, k)
 	return v.withGo(mt.Elem()), present
 }
 
@@ -732,6 +738,7 @@ func (c *FnCtx) evalCompositeLit(st *State, x *ast.CompositeLit, addr bool) *Ter
 		elem := c.ts.elemSort(srt)
 		arrName := c.smt.freshConst("litarr", arraySort(SInt, elem))
 		var arr *Term = arrName
+		var elems []*Term
 		for i, el := range x.Elts {
 			if _, ok := el.(*ast.KeyValueExpr); ok {
 				c.unsupportedf(x, "keyed slice literal")
@@ -743,8 +750,13 @@ func (c *FnCtx) evalCompositeLit(st *State, x *ast.CompositeLit, addr bool) *Ter
 				v = c.convertTo(st, c.eval(st, el), c.typeOf(el), u.Elem())
 			}
 			arr = mkStore(arr, intLit(int64(i)), v)
+			elems = append(elems, v)
 		}
-		return c.mkSlice(srt, intLit(int64(len(x.Elts))), arr).withGo(t)
+		lit := c.nameSlice(st, c.mkSlice(srt, intLit(int64(len(x.Elts))), arr), "lit")
+		for i, v := range elems {
+			st.pc = append(st.pc, mkEq(c.sliceAt(lit, intLit(int64(i))), v))
+		}
+		return lit.withGo(t)
 	case *types.Map:
 		r := c.newMap(st, u)
 		for _, el := range x.Elts {
